@@ -135,7 +135,9 @@ pub fn run(ctx: &mut Ctx) {
             // capitalised (a user may add `markdown` although `Markdown` is listed), and listed lower-case words
             let mut lower_of_capitalised = Vec::new();
             let mut listed = Vec::new();
-            let all: Vec<String> = fst.words_iter().map(|w| w.iter().collect::<String>()).collect();
+            let mut all: Vec<String> = fst.words_iter().map(|w| w.iter().collect::<String>()).collect();
+            all.sort(); // the dictionary iterates in hash order, which differs from process to process
+            let mut tagged_twin: Vec<String> = Vec::new();
             let mut tries = 0;
             while (lower_of_capitalised.len() < n || listed.len() < n) && tries < 400_000 {
                 tries += 1;
@@ -146,16 +148,20 @@ pub fn run(ctx: &mut Ctx) {
                 let lower = w.to_lowercase();
                 if w != lower && w[1..] == lower[1..] {
                     if !fst.contains_word_str(&lower) || !fst.contains_exact_word_str(&lower) {
-                        if lower_of_capitalised.len() < n && !fst.contains_exact_word_str(&lower) {
+                        if lower_of_capitalised.len() < n && !fst.contains_exact_word_str(&lower) && !lower_of_capitalised.contains(&lower) {
+                            // the curated twin may belong to one dialect only (`Americanise`): a listed finding, kept apart
+                            if fst.get_word_metadata_str(&w).is_some_and(|m| m.dialect.is_some()) {
+                                tagged_twin.push(lower.clone());
+                            }
                             lower_of_capitalised.push(lower);
                         }
                     }
-                } else if w == lower && listed.len() < n && fst.get_word_metadata_str(&w).is_some_and(|m| m.dialect.is_none()) {
+                } else if w == lower && listed.len() < n && !listed.contains(&w) && fst.get_word_metadata_str(&w).is_some_and(|m| m.dialect.is_none()) {
                     // valid in every dialect
                     listed.push(w);
                 }
             }
-            writeln!(f, "{}", json!({"fam": "dictwords", "lower_of_capitalised": lower_of_capitalised, "listed": listed})).unwrap();
+            writeln!(f, "{}", json!({"fam": "dictwords", "lower_of_capitalised": lower_of_capitalised, "listed": listed, "twin_is_dialect_tagged": tagged_twin})).unwrap();
         }
         "hist" => {
             // histories for one long-lived document: fixed settings, texts assembled from a small pool of
